@@ -7,7 +7,9 @@ package main
 import (
 	"encoding/json"
 	"fmt"
+	"github.com/bluenviron/gomavlib/v3/pkg/dialect"
 	"github.com/bluenviron/gomavlib/v3/pkg/frame"
+	"github.com/bluenviron/gomavlib/v3/pkg/message"
 	"reflect"
 	"sort"
 
@@ -17,6 +19,39 @@ import (
 	"verif/gm"
 	"verif/ref"
 )
+
+// user-defined messages with ids above 65535 (no shipped message has one): the third id byte
+// takes part in the checksum (round 10, seeded C02-j1)
+type MessageWideA struct {
+	A uint32
+	B uint8
+}
+
+func (*MessageWideA) GetID() uint32 { return 0xABCDEF }
+
+type MessageWideB struct {
+	X uint16
+	S string `mavlen:"4"`
+}
+
+func (*MessageWideB) GetID() uint32 { return 0x010000 }
+
+func userTypes() ([]*gm.MsgType, error) {
+	var out []*gm.MsgType
+	for _, m := range []message.Message{&MessageWideA{}, &MessageWideB{}} {
+		drw, err := gm.DialectRW(&dialect.Dialect{Version: 3, Messages: []message.Message{m}})
+		if err != nil {
+			return nil, err
+		}
+		t := reflect.TypeOf(m).Elem()
+		def, err := ref.DefFromStruct(t, m.GetID())
+		if err != nil {
+			return nil, err
+		}
+		out = append(out, &gm.MsgType{Dialect: "user", Type: t, ID: m.GetID(), Def: def, RW: drw.GetMessage(m.GetID()), DRW: drw, Proto: m})
+	}
+	return out, nil
+}
 
 type hcase struct {
 	Bytes []byte `json:"bytes"`
@@ -250,6 +285,11 @@ func main() {
 	if err != nil {
 		bx.Fatalf("%v", err)
 	}
+	ut, err := userTypes()
+	if err != nil {
+		bx.Fatalf("%v", err)
+	}
+	corpus = append(corpus, ut...)
 	tindex = gm.NewTypeIndex(corpus)
 	for _, m := range corpus {
 		byName[m.Name()] = m
